@@ -27,7 +27,9 @@ meta = {
         "demo.py with the change (exit)": sc.get("demo_with_change", {}).get("exit"),
         "demo.py with the change (tail)": sc.get("demo_with_change", {}).get("tail", "")[-300:],
     },
-    "checks_that_report_it": {k: v.get("findings", [])[:3] for k, v in sc.get("checks_that_report", {}).items()},
+    "checks_that_report_it": {k: v.get("findings", [])[:3] for k, v in sc.get("checks_that_report", {}).items() if v.get("exit") == 1},
+    # checks that stop with exit 2 (ANALYSIS-ERROR): the change puts the code outside what they can decide, and they say so
+    "checks_that_cannot_decide_it": {k: v.get("findings", [])[:1] for k, v in sc.get("checks_that_report", {}).items() if v.get("exit") == 2},
 }
 (dst / "meta.json").write_text(json.dumps(meta, indent=1))
 print(sid, "->", sorted(meta["checks_that_report_it"]))
